@@ -322,6 +322,9 @@ def tolerant_pass(stem, timeout=900):
         # one Require per module, so that a module that no longer compiles does not take the others with it
         return "".join("%s %s.\n" % (m.group(1), mod) for mod in m.group(2).split())
     text = re.sub(r"^((?:From\s+[\w.]+\s+)?Require\s+(?:Import|Export))\s+([\w.\s]+?)\.[ \t]*$", split_require, text, flags=re.M)
+    # a proof script that fails leaves its proof open, and every later Theorem would then be refused as a nested proof: close
+    # whatever is open after each Qed (a harmless error when nothing is open)
+    text = re.sub(r"\b(Qed|Defined)\.", r"\1. Abort All.", text)
     names = [t[0] for t in count_theorems(vfile)]
     # probes, after the file: `Fail Check @name.` says "The reference name was not found" exactly for the theorems that the
     # kernel did not accept above
